@@ -288,6 +288,21 @@ theorem srvSub_char (b : B) (cb : Nat) (f : Bytes) (q : Nat) :
       · rename_i hq; simp only [hq, ↓reduceIte] at this; rw [this]; rfl
       · rename_i hq; simp only [hq, ↓reduceIte] at this; rw [this]; rfl
 
+/-- every invocation the in-process `Subscribe` makes carries RETAIN = 1 (any filter) -/
+theorem srvSub_retain (b : B) (hinv : Inv b) (cb : Nat) (f : Bytes) (q : Nat) (w : Pub)
+    (ho : Out.call cb w ∈ (srvSub b cb f q).2) : w.retain = true := by
+  rw [(srvSub_char b cb f q).1] at ho
+  cases ha : accepts f q with
+  | false => simp [ha] at ho
+  | true =>
+    simp only [ha, ↓reduceIte, List.mem_map] at ho
+    obtain ⟨r, hr, heq⟩ := ho
+    obtain ⟨e, he, rfl⟩ := retainedOf_mem b.topics f hinv.rwf (accepts_levels f q ha) r hr
+    have hw : w = retainedCall e.2 (min q Mqtt.Generated.maxQosAllowed) := by
+      injection heq with _ h2; exact h2.symm
+    rw [hw]
+    exact hinv.rflag e he
+
 /-! ### against the specification's retained store -/
 
 /-- a PUBLISH without the fields the specification leaves open (DUP, identifier) -/
